@@ -44,6 +44,7 @@ fn c10_big(kind: u32, le: bool, tags: &[String], out: &mut Outcome) {
         chrom_block: 64,
         chrom_level_order: false,
         chrom_ids_in_given_order: false,
+            chrom_ids_reverse_of_keys: false,
         fanout: 64,
         placement: Placement::LevelOrder,
         zooms: vec![],
@@ -221,6 +222,7 @@ fn specs(tier: Tier) -> Vec<EncSpec> {
                                     chrom_block,
                                     chrom_level_order: n % 2 == 1,
                                     chrom_ids_in_given_order: (n / 2) % 2 == 1 && chrom_block >= content.len(),
+                                    chrom_ids_reverse_of_keys: (n / 4) % 2 == 1 && (n / 2) % 2 == 0,
                                     fanout,
                                     placement,
                                     zooms,
@@ -672,6 +674,7 @@ pub fn gen_c20(dir: &str, thorough: bool) {
             chrom_block: 64,
             chrom_level_order: false,
             chrom_ids_in_given_order: false,
+            chrom_ids_reverse_of_keys: false,
             fanout: 2,
             placement: Placement::LevelOrder,
             zooms: vec![2, 4],
@@ -703,6 +706,7 @@ pub fn gen_c20(dir: &str, thorough: bool) {
             chrom_block: 64,
             chrom_level_order: false,
             chrom_ids_in_given_order: false,
+            chrom_ids_reverse_of_keys: false,
             fanout: 2,
             placement: Placement::LevelOrder,
             zooms: vec![2, 4],
@@ -724,6 +728,39 @@ pub fn gen_c20(dir: &str, thorough: bool) {
         let pb: Vec<Option<f32>> = depth.iter().map(|d| if *d > 0 { Some(*d as f32) } else { None }).collect();
         manifest.push(json!({"path": path, "kind": "bigbed", "chrom": "c", "length": CL, "per_base": pb, "items": entries}));
     }
+    // chromosomes of 17 x 1 000 001 and 17 x 1 000 003 bases covered by one interval: binned requests
+    // whose span exceeds 2^24 (not representable in single precision) and whose bins end exactly on
+    // the chromosome's ends
+    let mut big = vec![];
+    for (k, w) in [1_000_001u32, 1_000_003].into_iter().enumerate() {
+        let len = 17 * w;
+        for bed in [false, true] {
+            let spec = EncSpec {
+                bed,
+                le: true,
+                compress: k == 0,
+                version: 4,
+                chroms: vec![EncChrom { name: "c".into(), size: len, wig: if bed { vec![] } else { vec![WigSec::T1(vec![(0, len, 1.5)])] }, bed: if bed { vec![vec![(0, len, "whole".to_string())]] } else { vec![] } }],
+                chrom_block: 64,
+                chrom_level_order: false,
+                chrom_ids_in_given_order: false,
+                chrom_ids_reverse_of_keys: false,
+                fanout: 2,
+                placement: Placement::LevelOrder,
+                zooms: vec![],
+                zoom_ips: 2,
+                zoom_blocks_span_chroms: false,
+                trailing_magic: true,
+                index_last: false,
+                no_summary: false,
+                autosql: None,
+            };
+            let path = format!("{}/big{}_{}.{}", dir, k, w, if bed { "bb" } else { "bw" });
+            std::fs::write(&path, encode(&spec).bytes).unwrap();
+            big.push(json!({"path": path, "kind": if bed { "bigbed" } else { "bigwig" }, "length": len, "width": w, "value": if bed { 1.0 } else { 1.5 }}));
+        }
+    }
+    std::fs::write(format!("{}/manifest_big.json", dir), serde_json::to_string(&big).unwrap()).unwrap();
     std::fs::write(format!("{}/manifest.json", dir), serde_json::to_string(&manifest).unwrap()).unwrap();
     println!("GENERATED {}", manifest.len());
 }
